@@ -326,6 +326,20 @@ def _r2_signal(idx, rep):
         fi = s["fi"]
         okc = fi.qual == "FailAll._decide_match"
         rep.check(okc, "R2", f"{fi.file}::{fi.qual} calls fail_all", "fail_all() may be called only from the fail_all() match function", K.where(fi, s["call"]))
+    # FailAll._decide_match: the own verdict always; the group signal exactly when the csvpath belongs to a CsvPaths
+    ff = idx.method("FailAll", "_decide_match")
+    rep.analysed(ff)
+    bad = None
+    for owner in (None, Obj("cps")):
+        it = Interp(idx, types={"self": "FailAll"}, unknown_calls="residual",
+                    handlers={"cps.fail_all": lambda i, c, r, a, k: i.record_call("fail_all"), "self.default_match": lambda i, c, r, a, k: "DEFAULT"})
+        ps = it.run_all(ff, args={"skip": []}, store={"self.matcher.csvpath.csvpaths": owner, "self.matcher.csvpath.is_valid": True})
+        for p in ps:
+            sig = bool(p.calls("fail_all"))
+            if p.result[0] != "return" or p.final_store.get("self.matcher.csvpath.is_valid") is not False or sig != (owner is not None):
+                bad = bad or (f"csvpath {'in a group' if owner is not None else 'standalone'}: ends {p.result[0]}, is_valid={p.final_store.get('self.matcher.csvpath.is_valid')!r}, "
+                              f"group signalled={sig}; documented: verdict False, signal iff the csvpath has a CsvPaths")
+    rep.check(bad is None, "R2", f"{ff.file}::FailAll._decide_match table", bad or "", K.where(ff, ff.node))
     st = K.attr_stores(idx, {"_fail_all"})
     for s in st:
         fi, v = s["fi"], s["value"]
